@@ -30,7 +30,9 @@ def jobs(tier, seed):
             for seg in range(5):
                 F.append(dict(entry="h_file_trunc", args=[ver, feat, 1, seg, 5], budget=90, mod="fmfile", huge_alloc_is_violation=True, throw_is_violation=True, stubs=["bsphere"]))
     else:
-        for j in fmfile.jobs("h_file_trunc", tier, extra_args=[1, 0, 1], budget=1200, huge_alloc_is_violation=True, throw_is_violation=True, stubs=["bsphere"]):
+        # thorough: the quick model list of the F-model family, 8 truncation ranges each, 300 s per range
+        # (all 44 thorough models x 8 ranges x 1200 s would take hours)
+        for j in fmfile.jobs("h_file_trunc", "quick", extra_args=[1, 0, 1], budget=300, huge_alloc_is_violation=True, throw_is_violation=True, stubs=["bsphere"]):
             for seg in range(8):
                 k = dict(j)
                 k["args"] = j["args"][:3] + [seg, 8]
